@@ -748,6 +748,17 @@ func Core() []*Program {
 		pr.AcqGate = true
 		add(pr)
 	}
+	// a deferred task call written in an included Taskfile refers to a task of that file
+	add(inc(mk("inc-defer-call", 0, []string{"a", "n:x", "n:y"}, map[string]*Task{
+		"a":   {Cmds: []Cmd{call("n:x", "one"), sh(0)}},
+		"n:x": {Cmds: []Cmd{{K: "dcall", CS: &CallSite{Task: "n:y", V: "$"}}, {K: "dsh"}, sh(0)}},
+		"n:y": {Cmds: []Cmd{sh(0)}},
+	}), "n"))
+	// a fingerprinted task that ignores its own failures: every failure is ignored, not just the first
+	add(mk("ign-two-failures-sources", 0, []string{"a", "b"}, map[string]*Task{
+		"a": {Cmds: []Cmd{call("b", ""), sh(0)}},
+		"b": {Ign: true, Src: true, Cmds: []Cmd{sh(3), sh(5), sh(0), sh(7), sh(0)}},
+	}))
 	// two roots, sequential and parallel
 	for _, par := range []bool{false, true} {
 		p := mk(fmt.Sprintf("two-roots-par%v", par), 2, []string{"a", "b", "c"}, map[string]*Task{
